@@ -171,6 +171,12 @@ def run(ctx) -> None:
         for k, v in list_ops(mf.node, "self._queue").items():
             qops.setdefault(k, []).append(m)
     stage("delay queue: append/popleft", "put" in qops.get("append", []) and "get" in qops.get("popleft", []) and not any(k in qops for k in ORDER_BAD if k != "remove"), f"deque operations: {qops}", dq.loc, qops)
+    # the delay queue hands out exactly the element it validated (shared instance with C17/C08): otherwise an element pulled out
+    # by remove() is delivered again, or the element that took its place is popped and dropped
+    from .c17 import get_paths, revalidate_head
+
+    qpaths, qci = get_paths(P)
+    revalidate_head(ctx, RO, qpaths, qci)
     er = P.find_method("EventEmitter", "run")
     whiles = [n for n in ast.walk(er.node) if isinstance(n, ast.While)]
     calls = [n for n in ast.walk(er.node) if isinstance(n, ast.Call) and dotted(n.func) == "self.queue_events"]
